@@ -222,7 +222,7 @@ theorem covered_pred (last fst : Bool) (p n : Nat) (tail : PredTail) (hp : lower
     have := (goodOp_pred p n tail hp ht).any last
     cases fst with
     | true => simpa [joinInner] using this.toFirst
-    | false => simpa [joinInner] using this.notFirst
+    | false => simpa [joinInner] using this.toRest
   · have hsp := showNat_ne_sp n
     simp only [processOperand, predTok, hsp, processRegister, expectOp, expectReg]
     have h112 : lowerC 112 = 112 := by decide
